@@ -53,9 +53,8 @@ Proof.
   - intros f l IHl H. simpl in H. apply andb_prop in H. destruct H as [Hc Hl].
     change (negb (control_builtin f) && pure_elist mutating l = true). rewrite Hc, (IHl Hl). reflexivity.
   - intros a IHa f l IHl H. simpl in H.
-    destruct a as [c0|r|f0 l0|a0 f0 l0|a0 n0|a0 e0|a0]; try discriminate.
     apply andb_prop in H. destruct H as [H Hl]. apply andb_prop in H. destruct H as [Hr Hok].
-    change (negb (mutating f) && pure_atom mutating (AVar r) && pure_elist mutating l = true).
+    change (negb (mutating f) && pure_atom mutating a && pure_elist mutating l = true).
     rewrite (ok_pure f Hok), (IHa Hr), (IHl Hl). reflexivity.
   - intros a _ n H. discriminate.
   - intros a _ e _ H. discriminate.
